@@ -757,34 +757,56 @@ func c04Composed(c *Ctx, r *Report, fr *Frame, m *ssa.Function, calls []c04Call,
 		}
 		// the unsigned integer behind the returned value
 		v := rs.instr.Results[0]
-		for {
-			if cv, ok := v.(*ssa.Convert); ok {
-				v = cv.X
-				continue
+		strip := func(v ssa.Value) ssa.Value {
+			for {
+				if cv, ok := v.(*ssa.Convert); ok {
+					v = cv.X
+					continue
+				}
+				return v
 			}
-			break
 		}
-		u, isI := fr.val(v).(AInt)
-		if !isI {
-			okAll = false
-			detail = "returned value is not an integer composition"
-			continue
+		v = strip(v)
+		type site struct {
+			fr *Frame
+			v  ssa.Value
+			st DNF
 		}
-		for _, cj := range rs.state {
-			if infeasible(cj) {
-				continue
+		sites := []site{{fr, v, rs.state}}
+		// ... which a decoding helper of the module may have produced (and converted) for us
+		if call, isCall := v.(*ssa.Call); isCall {
+			if ch := fr.child[call]; ch != nil && c.inModule(ch.fn) && len(ch.returns) > 0 && ch.fn.Signature.Results().Len() == 1 {
+				sites = nil
+				for _, crs := range ch.returns {
+					if len(crs.state) > 0 {
+						sites = append(sites, site{ch, strip(crs.instr.Results[0]), crs.state})
+					}
+				}
 			}
-			n++
-			gsc := canonicalSlice(cj, gs, 0)
-			be := fr.frameBytes(gsc, affConst(0), int(want), true)
-			le := fr.frameBytes(gsc, affConst(0), int(want), false)
-			uu := fr.useIn(u, DNF{cj}, "composed value")
-			switch {
-			case cj.entails(atomEQ(bit, affConst(1))) && cj.entails(atomEQ(uu, le)):
-			case cj.entails(atomEQ(bit, affConst(0))) && cj.entails(atomEQ(uu, be)):
-			default:
+		}
+		for _, s := range sites {
+			u, isI := s.fr.val(s.v).(AInt)
+			if !isI {
 				okAll = false
-				detail = fmt.Sprintf("value %s is neither the little-endian combination under the flag nor the big-endian one without it", uu.String())
+				detail = "returned value is not an integer composition"
+				continue
+			}
+			for _, cj := range s.st {
+				if infeasible(cj) {
+					continue
+				}
+				n++
+				gsc := canonicalSlice(cj, gs, 0)
+				be := fr.frameBytes(gsc, affConst(0), int(want), true)
+				le := fr.frameBytes(gsc, affConst(0), int(want), false)
+				uu := fr.useIn(u, DNF{cj}, "composed value")
+				switch {
+				case cj.entails(atomEQ(bit, affConst(1))) && cj.entails(atomEQ(uu, le)):
+				case cj.entails(atomEQ(bit, affConst(0))) && cj.entails(atomEQ(uu, be)):
+				default:
+					okAll = false
+					detail = fmt.Sprintf("value %s is neither the little-endian combination under the flag nor the big-endian one without it", uu.String())
+				}
 			}
 		}
 	}
